@@ -24,7 +24,7 @@ EXTENDS SyltDriver, Json, IOUtils
 VARIABLES k,      \* index of the record being validated
           st      \* "run" | "ok" | "fail"
 
-tvars == <<cfg, pc, fs, chunk, soprog, sorun, errs, printed, exit, hist, k, st>>
+tvars == <<cfg, pc, fs, chunk, soprog, sorun, errs, printed, exit, hist, streams, k, st>>
 
 Rec == ndJsonDeserialize(IOEnv.TRACE)
 N == Len(Rec)
@@ -132,6 +132,23 @@ MissingWhat(r) ==
     ELSE IF \A i \in 1..Len(r.missing) : \E j \in 1..Len(r.blocks.named) : r.blocks.named[j] = r.missing[i]
     THEN {} ELSE {"errors-missing"}
 
+\* errors planted by the program's construction (r.planted: the source files - existing or not - that carry an error of
+\* their own): each of these files is named by some printed error block, whatever the library's error list says
+\* (the library may itself lose errors: a change inside sylt_parser::tree is on both sides of the differential comparison)
+PlantedWhat(r) ==
+    IF ~StdoutObservable THEN {}
+    ELSE IF \A i \in 1..Len(r.planted) : \E j \in 1..Len(r.blocks.files) : r.blocks.files[j] = r.planted[i]
+    THEN {} ELSE {"errors-missing"}
+
+\* The objects behind stdout and stderr, as pieces in file order.  r.world.so / .se: how many bytes the object held
+\* before the command started (pre_len) and whether it still starts with exactly them (pre_ok), how many were written
+\* through the original descriptor after the command ended (post_len) and whether the object ends with exactly them,
+\* behind everything else (post_ok).  What lies between is the command's piece (all other facts are taken from it).
+ObsStream(w) == (IF w.pre_len > 0 /\ w.pre_ok THEN <<"earlier">> ELSE <<>>) \o <<"command">>
+                \o (IF w.post_len > 0 /\ w.post_ok THEN <<"later">> ELSE <<>>)
+StreamWhat(r) == (IF ObsStream(r.world.so) = streams.out THEN {} ELSE {"stdout-disturbed"})
+                 \cup (IF ObsStream(r.world.se) = streams.err THEN {} ELSE {"stderr-disturbed"})
+
 FsWhat(r) == LET o == ObsFs(r) IN
              IF o = fs /\ r.extra_files = 0 /\ r.sources_intact THEN {}
              ELSE IF o \in {"partial", "other"} THEN {"partial-file"}
@@ -181,7 +198,7 @@ NoStdWhat(r) ==
             /\ (cfg.mode = "run" /\ CompileSucceeds(cfg)) => (r.so.has_out = p.so.has_out /\ r.ref.run.out_digest = p.ref.run.out_digest)
          THEN {} ELSE {"no-std"}
 
-Fails(r) == ExitWhat(r) \cup ErrorsWhat(r) \cup MissingWhat(r) \cup LuaErrWhat(r) \cup IoErrWhat(r) \cup FsWhat(r) \cup SoWhat(r)
+Fails(r) == ExitWhat(r) \cup ErrorsWhat(r) \cup MissingWhat(r) \cup PlantedWhat(r) \cup StreamWhat(r) \cup LuaErrWhat(r) \cup IoErrWhat(r) \cup FsWhat(r) \cup SoWhat(r)
             \cup ChunkWhat(r) \cup RunWhat(r) \cup BytesWhat(r) \cup RequireWhat(r) \cup NoStdWhat(r)
 
 ---------------------------------------------------------------------------
@@ -196,15 +213,22 @@ WantStatus(c) == CASE Eff(c) = "acc" -> {"done"}
 RecordWellFormed(i) ==
     LET r == Rec[i]  c == Case(i) IN
     /\ Assert(N = NBase * NV * NS, <<"trace length is not NBase*V*S", N, NV, NS>>)
-    /\ Assert(Sinks[FileAbsentSink] = [mode |-> "file", path |-> "absent"], "FileAbsentSink does not name -o FILE/absent")
+    /\ Assert(Sinks[FileAbsentSink] = [mode |-> "file", path |-> "absent", io |-> "fresh"], "FileAbsentSink does not name -o FILE/absent")
     /\ Assert(r.idx = i /\ r.base = Base(i) /\ r.v = Var(i) /\ r.spell = Spell(i), <<"record out of place", i>>)
     /\ Assert(r.cfg = c, <<"universe mismatch at record", i, r.cfg, c>>)
     /\ Assert((r.ref.class = "ok") = CompileSucceeds(c), <<"program not in its class (accept/reject)", i, r.ref.class>>)
     /\ Assert(r.ref.run.status \in WantStatus(c), <<"program not in its class (run)", i, r.ref.run.status>>)
-    /\ Assert(~CompileSucceeds(c) => r.ref.nerrors \in ErrCounts(c), <<"rejected program without errors, or with more than MaxErrs", i, r.ref.nerrors>>)
+    /\ Assert(~CompileSucceeds(c) => r.ref.nerrors \in 1..MaxErrs, <<"rejected program without errors, or with more than MaxErrs", i, r.ref.nerrors>>)
+    /\ Assert(MinErrs(c) <= MaxErrs, <<"class written to have more than MaxErrs errors", i>>)
     /\ Assert(r.ref.blocks.n = r.ref.nerrors, <<"the block recogniser does not find one block per library error", i, r.ref.blocks.n, r.ref.nerrors>>)
     /\ Assert(c.std \/ r.ref.run.out_len = 0, <<"std-free program prints", i>>)
     /\ Assert(Len(r.missing) = PlantedMissing(c), <<"program does not miss the imports of its class", i, r.missing>>)
+    /\ Assert(Len(r.planted) >= MinErrFiles(c) /\ (c.pk # "rej" => Len(r.planted) = 0), <<"program does not carry the planted errors of its class", i, r.planted>>)
+    /\ Assert(\A j \in 1..Len(r.missing) : \E m \in 1..Len(r.planted) : r.planted[m] = r.missing[j], <<"a missing import is not among the planted errors", i>>)
+    \* the world the recorder built around descriptors 1 and 2 is the one the configuration names
+    /\ Assert(\A w \in {r.world.so, r.world.se} : (w.pre_len > 0) = (Earlier(c) # <<>>) /\ (w.post_len > 0) = WrittenLater(c),
+              <<"stdout / stderr were not set up as the configuration says", i, r.world>>)
+    /\ Assert(r.world.io = c.io, <<"stdout / stderr kind", i>>)
     /\ Assert(Canon(i) \in 1..N /\ NoReq(i) \in 1..N /\ Flip(i) \in 1..N, <<"partner outside the trace", i>>)
 
 EarlyIoFailure(r) == /\ cfg.mode = "file" /\ ~Writable(cfg) /\ ~CompileSucceeds(cfg)
@@ -218,13 +242,15 @@ TraceInit ==
     /\ pc = "start" /\ fs = InitFs(cfg)
     /\ chunk = "none" /\ soprog = "none" /\ sorun = "none"
     /\ errs = <<>> /\ printed = <<>> /\ exit = "none" /\ hist = <<>>
+    /\ streams = [out |-> Earlier(cfg), err |-> Earlier(cfg)]
     /\ st = "run"
 
 TraceStep ==
-    /\ st = "run" /\ ~Done
-    /\ \/ ParseArgs \/ CompileOk \/ RunOk \/ RunFail
-       \* a rejected program and an unwritable FILE: which of the two the command met first is read off the recording
-       \/ (~EarlyIoFailure(R) /\ CompileErrN(R.ref.nerrors))
+    /\ st = "run" /\ ~Settled
+    /\ \/ ParseArgs \/ CompileOk \/ RunOk \/ RunFail \/ Later
+       \* a rejected program and an unwritable FILE: which of the two the command met first is read off the recording.
+       \* The number of errors to print: what the library reports, and at least what the program was written to have
+       \/ (~EarlyIoFailure(R) /\ CompileErrN(IF R.ref.nerrors >= MinErrs(cfg) THEN R.ref.nerrors ELSE MinErrs(cfg)))
        \/ (EarlyIoFailure(R) /\ OutputFailEarly)
        \/ WriteStdout \/ WriteFileOk \/ WriteFileFail \/ PrintErrors \/ Exit
        \* an unwritable stdout: the recorded status selects the behaviour where the property leaves it open
@@ -233,18 +259,19 @@ TraceStep ==
     /\ UNCHANGED <<k, st>>
 
 TraceAccept ==
-    /\ st = "run" /\ Done /\ Fails(R) = {}
+    /\ st = "run" /\ Settled /\ Fails(R) = {}
     /\ st' = "ok"
-    /\ UNCHANGED <<cfg, pc, fs, chunk, soprog, sorun, errs, printed, exit, hist, k>>
+    /\ UNCHANGED <<cfg, pc, fs, chunk, soprog, sorun, errs, printed, exit, hist, streams, k>>
 
 TraceReject ==
-    /\ st = "run" /\ Done /\ Fails(R) # {}
+    /\ st = "run" /\ Settled /\ Fails(R) # {}
     /\ st' = "fail"
     /\ PrintT(<<"REJECT", ToJson([rec |-> k, whats |-> Fails(R), expect |-> Expectation,
                                   observed |-> [exit |-> ObsExit(R), code |-> R.exit, fs |-> ObsFs(R), soprog |-> ObsSoProg(R),
-                                                chunk |-> ObsChunk(R), blocks |-> R.blocks.n, panic |-> R.se.panic],
+                                                chunk |-> ObsChunk(R), blocks |-> R.blocks.n, panic |-> R.se.panic,
+                                                streams |-> [out |-> ObsStream(R.world.so), err |-> ObsStream(R.world.se)]],
                                   partners |-> [canon |-> Canon(k), noreq |-> NoReq(k), flip |-> Flip(k)]])>>)
-    /\ UNCHANGED <<cfg, pc, fs, chunk, soprog, sorun, errs, printed, exit, hist, k>>
+    /\ UNCHANGED <<cfg, pc, fs, chunk, soprog, sorun, errs, printed, exit, hist, streams, k>>
 
 TraceNext == TraceStep \/ TraceAccept \/ TraceReject
 
